@@ -168,6 +168,17 @@ pub fn cases(seed: u64, tier: Tier) -> Cases {
                     assert!(s.error_instance_id() == id, "BYREF: Error::service_safe(cause, &e) carries instance id {} instead of the supplied {}", s.error_instance_id(), id);
                 }
             }
+            // an instance id supplied afterwards wins over whatever the error reported before: over its own, if it has
+            // one, and over one supplied earlier
+            let supplied = Uuid::from_u128(0x0f0e_0d0c_0b0a_4908_8706_0504_0302_0100 ^ (i as u128));
+            let earlier = Uuid::from_u128(0x1111_2222_3333_4444_8555_6666_7777_8888);
+            let once = encode(&(&e).with_instance_id(supplied));
+            assert!(once.error_instance_id() == supplied, "WITHID: with_instance_id({}) on an error reporting {:?} encodes instance id {}", supplied, id, once.error_instance_id());
+            let twice = (&e).with_instance_id(earlier).with_instance_id(supplied);
+            assert!(encode(&twice).error_instance_id() == supplied, "WITHID: with_instance_id({}) after with_instance_id({}) encodes instance id {}", supplied, earlier, encode(&twice).error_instance_id());
+            if let conjure_error::ErrorKind::Service(s) = Error::service_safe("cause", twice).kind() {
+                assert!(s.error_instance_id() == supplied, "WITHID: Error::service_safe carries instance id {} instead of the one supplied last, {}", s.error_instance_id(), supplied);
+            }
             (a, b)
         });
         let op = format!("encode {} {}", ty.txt(), val.txt());
@@ -176,6 +187,11 @@ pub fn cases(seed: u64, tier: Tier) -> Cases {
             Err(p) if p.starts_with("BYREF: ") => {
                 cs.push("encode", op, "byref".into(), true, note);
                 cs.fail_last("encode:by-reference", p);
+                continue;
+            }
+            Err(p) if p.starts_with("WITHID: ") => {
+                cs.push("encode", op, "withid".into(), true, note);
+                cs.fail_last("encode:with-instance-id", p[8..].to_string());
                 continue;
             }
             Err(p) => {
@@ -303,7 +319,17 @@ pub fn cases(seed: u64, tier: Tier) -> Cases {
             }
         }
         let f = |n: &String| irgen::field(n, irgen::prim("STRING"), None);
-        let err = serde_json::json!({"errorName": irgen::tname(&format!("Err{}", i)), "namespace": "Test", "code": "INVALID_ARGUMENT", "safeArgs": safe.iter().map(f).collect::<Vec<_>>(), "unsafeArgs": uns.iter().map(f).collect::<Vec<_>>()});
+        // names that are and are not what the generator calls the Rust type (acronym runs, the keyword `Self`)
+        let ename = match i % 5 {
+            0 => format!("Err{}", i),
+            1 => format!("MyHTTPError{}", i),
+            2 => "Self".to_string(),
+            3 => format!("XMLParse{}Failure", i),
+            _ => format!("Io{}", i),
+        };
+        let ns = ["Test", "MyNS", "Conjure", "HTTPApi"][i % 4];
+        let (code_name, code_variant) = CODE_NAMES[i % CODE_NAMES.len()];
+        let err = serde_json::json!({"errorName": irgen::tname(&ename), "namespace": ns, "code": code_name, "safeArgs": safe.iter().map(f).collect::<Vec<_>>(), "unsafeArgs": uns.iter().map(f).collect::<Vec<_>>()});
         let irv = irgen::ir(vec![], vec![], vec![err]);
         let op = format!("safeargs {}", if safe.is_empty() { "-".to_string() } else { safe.iter().map(|s| hex(s.as_bytes())).collect::<Vec<_>>().join(",") });
         let note = format!("generated ErrorType::safe_args for safe {:?} unsafe {:?}", safe, uns);
@@ -324,6 +350,25 @@ pub fn cases(seed: u64, tier: Tier) -> Cases {
                         }
                     }
                 }
+                // the name and the code the generated `ErrorType` reports
+                let mut got_name: Option<String> = None;
+                let mut got_code: Option<String> = None;
+                for text in tree.values() {
+                    if let Some(i) = text.find("fn name(") {
+                        let rest = &text[i..];
+                        if let Some(a) = rest.find('"') {
+                            if let Some(b) = rest[a + 1..].find('"') {
+                                got_name = Some(rest[a + 1..a + 1 + b].to_string());
+                            }
+                        }
+                    }
+                    if let Some(i) = text.find("fn code(") {
+                        let rest = &text[i..];
+                        if let Some(a) = rest.find("ErrorCode::") {
+                            got_code = Some(rest[a + 11..].chars().take_while(|c| c.is_ascii_alphanumeric() || *c == '_').collect());
+                        }
+                    }
+                }
                 let got = got.unwrap_or_default();
                 cs.push("generated", op, if got.is_empty() { "-".to_string() } else { got.iter().map(|s| hex(s.as_bytes())).collect::<Vec<_>>().join(",") }, true, note);
                 let mut want = safe.clone();
@@ -331,11 +376,30 @@ pub fn cases(seed: u64, tier: Tier) -> Cases {
                 if got != want {
                     cs.fail_last("generated:safe-args", format!("generated safe_args {:?}, declared safe (sorted) {:?}", got, want));
                 }
+                let want_name = format!("{}:{}", ns, ename);
+                if got_name.as_deref() != Some(want_name.as_str()) {
+                    cs.fail_last("generated:name", format!("the error declared as {} reports the name {:?}", want_name, got_name));
+                } else if got_code.as_deref() != Some(code_variant) {
+                    cs.fail_last("generated:code", format!("the error declared with code {} reports {:?}", code_name, got_code));
+                }
             }
         }
     }
     cs
 }
+
+const CODE_NAMES: [(&str, &str); 10] = [
+    ("PERMISSION_DENIED", "PermissionDenied"),
+    ("INVALID_ARGUMENT", "InvalidArgument"),
+    ("NOT_FOUND", "NotFound"),
+    ("CONFLICT", "Conflict"),
+    ("REQUEST_ENTITY_TOO_LARGE", "RequestEntityTooLarge"),
+    ("FAILED_PRECONDITION", "FailedPrecondition"),
+    ("INTERNAL", "Internal"),
+    ("TIMEOUT", "Timeout"),
+    ("CUSTOM_CLIENT", "CustomClient"),
+    ("CUSTOM_SERVER", "CustomServer"),
+];
 
 fn strip_val(v: &DynVal) -> &DynVal {
     match v {
@@ -344,4 +408,4 @@ fn strip_val(v: &DynVal) -> &DynVal {
     }
 }
 
-pub const RULE: &str = "all 10 error codes against the specification's status table; seeded dynamic error types with 0-5 parameters drawn from 16 type shapes (strings, bool, i32, i64, u16, double incl. NaN/infinities, uuid, binary, optional present/absent, list, map, object, enum, aliases), a seeded subset declared safe, with and without an explicit instance id: conjure_error::encode (parameters, code, name, instance id supplied or fresh v4), JSON round trip of the SerializableError through client and server deserializers, Error::service vs Error::propagated_service partition of safe/unsafe parameter names; seeded error definitions through the real generator, reading back the emitted safe_args array. Compared with the model and with the statement's rule written independently. All cases non-trivial; distinct = distinct operation lines.";
+pub const RULE: &str = "all 10 error codes against the specification's status table; seeded dynamic error types with 0-5 parameters drawn from 16 type shapes (strings, bool, i32, i64, u16, double incl. NaN/infinities, uuid, binary, optional present/absent, list, map, object, enum, aliases), a seeded subset declared safe, with and without an explicit instance id: conjure_error::encode (parameters, code, name, instance id supplied or fresh v4), JSON round trip of the SerializableError through client and server deserializers, Error::service vs Error::propagated_service partition of safe/unsafe parameter names; seeded error definitions through the real generator, reading back the emitted safe_args array, the name (names the generator must rename for Rust among them) and the code. Compared with the model and with the statement's rule written independently. All cases non-trivial; distinct = distinct operation lines.";
